@@ -203,51 +203,72 @@ def decMsgAddress (s : Slice) : Outcome (Val × Slice) := do
     let (bs, s) ← s.readBits ln
     pure (Val.ctor "AddrVar" (Val.some (Val.list [ac, .int ln, .int wc, .bits bs])), s)
 
-/-! ### small enumerations stored as Go strings -/
-def strBytes (s : String) : List UInt8 := s.toUTF8.toList
+/-! ### small enumerations stored as Go strings (dumped as their bytes) -/
+/-- the bytes of "uninit" -/
+def s_uninit : List UInt8 := [117, 110, 105, 110, 105, 116]
+/-- the bytes of "frozen" -/
+def s_frozen : List UInt8 := [102, 114, 111, 122, 101, 110]
+/-- the bytes of "active" -/
+def s_active : List UInt8 := [97, 99, 116, 105, 118, 101]
+/-- the bytes of "nonexist" -/
+def s_nonexist : List UInt8 := [110, 111, 110, 101, 120, 105, 115, 116]
+/-- the bytes of "acst_unchanged" -/
+def s_acst_unchanged : List UInt8 := [97, 99, 115, 116, 95, 117, 110, 99, 104, 97, 110, 103, 101, 100]
+/-- the bytes of "acst_frozen" -/
+def s_acst_frozen : List UInt8 := [97, 99, 115, 116, 95, 102, 114, 111, 122, 101, 110]
+/-- the bytes of "acst_deleted" -/
+def s_acst_deleted : List UInt8 := [97, 99, 115, 116, 95, 100, 101, 108, 101, 116, 101, 100]
+/-- the bytes of "cskip_no_state" -/
+def s_cskip_no_state : List UInt8 := [99, 115, 107, 105, 112, 95, 110, 111, 95, 115, 116, 97, 116, 101]
+/-- the bytes of "cskip_bad_state" -/
+def s_cskip_bad_state : List UInt8 := [99, 115, 107, 105, 112, 95, 98, 97, 100, 95, 115, 116, 97, 116, 101]
+/-- the bytes of "cskip_no_gas" -/
+def s_cskip_no_gas : List UInt8 := [99, 115, 107, 105, 112, 95, 110, 111, 95, 103, 97, 115]
+/-- the bytes of "cskip_suspended" -/
+def s_cskip_suspended : List UInt8 := [99, 115, 107, 105, 112, 95, 115, 117, 115, 112, 101, 110, 100, 101, 100]
 
 def encAccountStatus (bs : List UInt8) (b : Builder) : Outcome Builder :=
-  if bs = strBytes "uninit" then b.writeUint 0 2
-  else if bs = strBytes "frozen" then b.writeUint 1 2
-  else if bs = strBytes "active" then b.writeUint 2 2
-  else if bs = strBytes "nonexist" then b.writeUint 3 2
+  if bs = s_uninit then b.writeUint 0 2
+  else if bs = s_frozen then b.writeUint 1 2
+  else if bs = s_active then b.writeUint 2 2
+  else if bs = s_nonexist then b.writeUint 3 2
   else .ok b
 
 def decAccountStatus (s : Slice) : Outcome (Val × Slice) := do
   let (t, s) ← s.readUint 2
-  let name := if t = 0 then "uninit" else if t = 1 then "frozen" else if t = 2 then "active" else "nonexist"
-  pure (.bytes (strBytes name), s)
+  let name := if t = 0 then s_uninit else if t = 1 then s_frozen else if t = 2 then s_active else s_nonexist
+  pure (.bytes name, s)
 
 def encAccStatusChange (bs : List UInt8) (b : Builder) : Outcome Builder :=
-  if bs = strBytes "acst_unchanged" then b.writeBit false
+  if bs = s_acst_unchanged then b.writeBit false
   else do
     let b ← b.writeBit true
-    if bs = strBytes "acst_deleted" then b.writeBit true else b.writeBit false
+    if bs = s_acst_deleted then b.writeBit true else b.writeBit false
 
 def decAccStatusChange (s : Slice) : Outcome (Val × Slice) := do
   let (f, s) ← s.readBit
   if f then do
     let (d, s) ← s.readBit
-    pure (.bytes (strBytes (if d then "acst_deleted" else "acst_frozen")), s)
-  else pure (.bytes (strBytes "acst_unchanged"), s)
+    pure (.bytes (if d then s_acst_deleted else s_acst_frozen), s)
+  else pure (.bytes (s_acst_unchanged), s)
 
 def encComputeSkipReason (bs : List UInt8) (b : Builder) : Outcome Builder :=
-  if bs = strBytes "cskip_no_state" then b.writeUint 0 2
-  else if bs = strBytes "cskip_bad_state" then b.writeUint 1 2
-  else if bs = strBytes "cskip_no_gas" then b.writeUint 2 2
-  else if bs = strBytes "cskip_suspended" then do
+  if bs = s_cskip_no_state then b.writeUint 0 2
+  else if bs = s_cskip_bad_state then b.writeUint 1 2
+  else if bs = s_cskip_no_gas then b.writeUint 2 2
+  else if bs = s_cskip_suspended then do
     let b ← b.writeUint 3 2
     b.writeUint 0 1
   else .ok b
 
 def decComputeSkipReason (s : Slice) : Outcome (Val × Slice) := do
   let (t, s) ← s.readUint 2
-  if t = 0 then pure (.bytes (strBytes "cskip_no_state"), s)
-  else if t = 1 then pure (.bytes (strBytes "cskip_bad_state"), s)
-  else if t = 2 then pure (.bytes (strBytes "cskip_no_gas"), s)
+  if t = 0 then pure (.bytes (s_cskip_no_state), s)
+  else if t = 1 then pure (.bytes (s_cskip_bad_state), s)
+  else if t = 2 then pure (.bytes (s_cskip_no_gas), s)
   else do
     let (nb, s) ← s.readUint 1
-    if nb = 0 then pure (.bytes (strBytes "cskip_suspended"), s) else .err "unknown ComputeSkipReason"
+    if nb = 0 then pure (.bytes (s_cskip_suspended), s) else .err "unknown ComputeSkipReason"
 
 /-! ### VmCellSlice -/
 def cellBitSize : Cell → Nat | .mk _ _ bs _ => bs.length
